@@ -1120,6 +1120,43 @@ def gen_numbers():
 U_TAGS = tuple(UNARY)
 
 
+def gen_repeated_chains():
+    """n-ary relations whose operand tuples repeat an operand (x y y, x x y, x x x, 1 1 x, x y x, equal numbers in
+    different spellings, identical sub-expressions), alone, under and / or / not and as piece conditions: the chain
+    is the conjunction of ALL adjacent pairs, so x < y < y is false and x <= y <= y is x <= y"""
+    out = []
+
+    def add(t):
+        out.append({'kind': 'repeated-chain', 'tree': t})
+    x, y, z = ci('x'), ci('y'), ci('z')
+    one, one0, two = cn('1'), cn('1.0'), cn('2')
+    sx = lambda: ap('sin', ci('x'))
+    pxy = lambda: ap('plus', ci('x'), ci('y'))
+    tuples = [list(t) for t in itertools.product((x, y), repeat=3)] + [list(t) for t in itertools.product((x, y), repeat=4)]
+    tuples += [[x, y, z, z], [x, x, y, z], [x, y, y, z], [z, y, y, x], [x, y, x, y], [x, y, z, x], [x, y, z, y]]
+    tuples += [[one, one, x], [x, one, one], [one, x, one], [one, one0, x], [x, one0, one], [one, one, one], [one, one0, one],
+               [one, two, two], [two, two, one], [one, one, two, two], [x, one, one, y], [one, x, x, two], [two, x, x, one],
+               [cn_e('1', '0'), one, x], [x, cn('0.5'), cn_e('5', '-1')]]
+    tuples += [[sx(), sx(), y], [y, sx(), sx()], [sx(), sx(), sx()], [pxy(), pxy(), x], [x, pxy(), pxy()],
+               [pxy(), x, pxy()], [ap('minus', x), ap('minus', x), y], [x, ap('times', two, y), ap('times', two, y), x]]
+    chains = [r for r in RELS if r != 'neq']
+    for r in chains:
+        for t in tuples:
+            c = ap(r, *t)
+            add(c)
+        for t in ([x, y, y], [x, x, y], [x, x, x], [y, x, y], [one, one, x], [x, y, y, x], [x, x, y, y]):
+            c = lambda: ap(r, *t)
+            add(ap('and', c(), ap('leq', x, y)))
+            add(ap('or', c(), ap('gt', x, y)))
+            add(ap('not', c()))
+            add(ap('and', ap('not', c()), c()))
+            add(ap('xor', c(), ap(chains[(chains.index(r) + 1) % 5], *t)))
+            add(E('piecewise', [E('piece', [cn('3'), c()]), E('otherwise', [cn('7')])]))
+            add(E('piecewise', [E('piece', [x, ap('not', c())]), E('piece', [y, c()])]))
+            add(ap('plus', E('piecewise', [E('piece', [x, c()]), E('otherwise', [y])]), cn('1')))
+    return out
+
+
 def gen_constants():
     """the constants as values and as operands (strict: where the extended reals give a value, the implementation's
     expression must have that value; an expression over <notanumber/> must not silently be a finite number)"""
@@ -1355,7 +1392,8 @@ def nowhere_defined(tree):
 
 
 def exhaustive_cases():
-    return gen_tag_arity() + gen_qualifiers() + gen_numbers() + gen_special_operands() + gen_constants()
+    return (gen_tag_arity() + gen_qualifiers() + gen_numbers() + gen_special_operands() + gen_constants()
+            + gen_repeated_chains())
 
 
 def run(ctx):
